@@ -18,6 +18,7 @@ and depth.
 -/
 import CtyModel.Lemmas.UnifyTyLaws
 import CtyModel.Lemmas.UnifyProps
+import CtyModel.Lemmas.UnifyNoPanic
 namespace CtyModel
 namespace C09
 open Convert Ty Unify
@@ -319,6 +320,112 @@ example : slotOf (Env.std Env.simple) false (.list .string) (.tuple [.bool, .str
     some (some (.plan (.wrap (.list .string) (.tupToList [.wrap .string .boolToStr, .nil] false)))) := rfl
 example : applyU (Env.std Env.simple) 8 (.plan (.wrap (.list .string) (.tupToList [.wrap .string .boolToStr, .nil] false)))
     ⟨.tuple [.bool, .string], .seq [.b true, .s "a"]⟩ = .ok ⟨.list .string, .seq [.s "true", .s "a"]⟩ := rfl
+
+/-! ## Unification never panics -/
+
+/-- Clause "unification never panics": `unify` is a total function of the type list
+(`unifyF` is defined by structural recursion — there is no partiality to hide a panic
+in), and none of the `.panic` branches of the model — a kind-specific accessor
+(`ElementType`, `AttributeTypes`, `TupleElementTypes`, `AttributeType(name)`) on a type
+of another kind, `types[0]`, `convs[idx]`, `tupleConvs[i]`, `types[wantTypeIdx]` out of
+range — is reachable: for every environment, fuel and mode, and any list of types whose
+object types are well-formed (as every `cty.Object(…)` is). -/
+theorem no_panic (E : Env) (fuel : Nat) (uns : Bool) (types : List Ty)
+    (hw : ∀ ty ∈ types, isObjectTy ty = true → ty.wf = true) : (unifyF E fuel uns types).isPanic = false := by
+  have h := unifyF_NP E fuel uns types hw
+  cases hr : unifyF E fuel uns types <;> simp [Res.isPanic]
+  exact absurd hr (h _)
+
+/-- … nor does it report an error; with fuel 0 the model is out of fuel, otherwise it
+answers NilType or a type with its slice.  (2 is always enough fuel on the real call
+tree: the re-entry of unifyTuplesAsList / unifyObjectsAsMaps happens on lists / maps only.) -/
+theorem no_panic_total (E : Env) (fuel : Nat) (uns : Bool) (types : List Ty)
+    (hw : ∀ ty ∈ types, isObjectTy ty = true → ty.wf = true) :
+    (∃ out, unifyF E fuel uns types = .ok out) ∨ unifyF E fuel uns types = .unmodelled ∨
+      (∃ c, unifyF E fuel uns types = .err c) := by
+  have h := unifyF_NP E fuel uns types hw
+  cases hr : unifyF E fuel uns types with
+  | ok o => exact .inl ⟨o, rfl⟩
+  | err c => exact .inr (.inr ⟨c, rfl⟩)
+  | panic w => exact absurd hr (h w)
+  | unmodelled => exact .inr (.inl rfl)
+
+/-- The closures composed by unifyTuplesAsList / unifyObjectsAsMaps never call a nil
+conversion ("We know the tuple conversion is not nil, because we went from tuple to
+list"): every composed slot has a non-nil first step. -/
+theorem no_panic_nil_call (E : Env) (fuel : Nat) (uns : Bool) (types : List Ty) (t : Ty) (cs : Convs) (i : Nat)
+    (s : UConv) (h : unifyF E fuel uns types = .ok (some (t, cs))) : cs[i]? ≠ some (some (.thenOrig none s)) := by
+  intro hc
+  have hs := unifyF_slots E fuel uns types t cs h
+  have hi : i < types.length := by rw [← hs.1]; exact (List.getElem?_eq_some_iff.mp hc).1
+  obtain ⟨c', hc', hrel⟩ := hs.2 i types[i] (List.getElem?_eq_getElem hi)
+  rw [hc] at hc'; simp only [Option.some.injEq] at hc'; subst hc'
+  cases hrel with
+  | direct hd =>
+    obtain ⟨_, p, hp, _⟩ := direct_plan hd
+    simp at hp
+
+/-- Full statement for the RETURNED conversions: applied to a well-formed value of
+their input type they never panic.  FALSE of the code — see
+`no_panic_applied_counterexample`. -/
+def NoPanicApplied : Prop :=
+  ∀ (E : Env) (fuel fuel' : Nat) (uns : Bool) (types : List Ty) (t : Ty) (cs : Convs) (i : Nat) (c : UConv) (v : Value),
+    UnifyLaws E → SetLaws E → unifyF E fuel uns types = .ok (some (t, cs)) → cs[i]? = some (some c) →
+    types[i]? = some v.ty → Value.wt v = true → (applyU E fuel' c v).isPanic = false
+
+/-- What holds: a slot filled the direct way, applied to a well-formed value of its
+input type without unknown parts, does not panic (placeholder-free, well-formed result
+type; either mode).  Reuse of C08.no_panic_getConversion_partial. -/
+theorem no_panic_applied_partial (E : Env) (hU : UnifyLaws E) (hS : SetLaws E) (fuel' : Nat) (uns : Bool)
+    (t : Ty) (c : UConv) (v : Value) (ht : plainTy t = true)
+    (hd : slotOf E uns t v.ty = some (some c)) (hv : Value.wt v = true)
+    (hk : Payload.whollyKnown v.v = true) : (applyU E fuel' c v).isPanic = false := by
+  simp only [plainTy, Bool.and_eq_true, Bool.not_eq_true'] at ht
+  obtain ⟨_, p, rfl, hg⟩ := direct_plan hd
+  have hp : RegularPair v t := ⟨hv, ht.1.1, ht.2⟩
+  have h := (apply_NB hU hS fuel' hp hk hg).1
+  simp only [applyU]
+  cases hr : apply E fuel' p v <;> simp [Res.isPanic]
+  exact absurd hr (h _)
+
+/-- the witness: `Unify([tuple(), tuple(bool), list(dynamic)])` is `list(dynamic)`; the
+closure composed for the empty tuple applies its second step — list(bool) → list(dynamic),
+which for an empty collection asks `val.Type().ElementType()` — to the original empty
+TUPLE value: `ElementType` on a tuple type panics. -/
+def panicWitnessConv : UConv :=
+  .thenOrig (some (.plan (.wrap (.list .bool) (.emptyToList .bool))))
+    (.plan (.wrap (.list .dyn) (.collToList .dyn (.wrap .dyn .dynPass))))
+
+theorem no_panic_applied_counterexample :
+    (unify (Env.std Env.simple) 3 [.tuple [], .tuple [.bool], .list .dyn]).map
+        (fun o => o.map fun r => (r.1, r.2[0]?)) =
+      .ok (some (.list .dyn, some (some panicWitnessConv))) ∧
+    applyU (Env.std Env.simple) 8 panicWitnessConv ⟨.tuple [], .seq []⟩ =
+      .panic "ElementType on non-collection" :=
+  ⟨rfl, rfl⟩
+
+theorem noPanicApplied_false : ¬ NoPanicApplied := by
+  intro h
+  obtain ⟨h1, h2⟩ := no_panic_applied_counterexample
+  cases hu : unify (Env.std Env.simple) 3 [.tuple [], .tuple [.bool], .list .dyn] with
+  | ok o =>
+    rw [hu] at h1
+    cases o with
+    | none => simp [Res.map] at h1
+    | some r =>
+      obtain ⟨t, cs⟩ := r
+      simp only [Res.map, Option.map_some, Res.ok.injEq, Option.some.injEq, Prod.mk.injEq] at h1
+      obtain ⟨rfl, hc⟩ := h1
+      have := h (Env.std Env.simple) 3 8 false _ _ cs 0 panicWitnessConv ⟨.tuple [], .seq []⟩
+        (unifyLaws_std _) setLaws_simple_std hu hc rfl (by decide)
+      rw [h2] at this
+      simp [Res.isPanic] at this
+  | err _ => rw [hu] at h1; simp [Res.map] at h1
+  | panic _ => rw [hu] at h1; simp [Res.map] at h1
+  | unmodelled => rw [hu] at h1; simp [Res.map] at h1
+
+example : (unifyF (Env.std Env.simple) 2 true [.object ["a"] [.string] [false], .tuple [.bool], .dyn]).isPanic = false :=
+  no_panic _ 2 true _ (by decide)
 
 end C09
 end CtyModel
